@@ -31,7 +31,7 @@ Correspondence with the Lean model (XsVerif/Model/Access.lean, driver drv_c12):
   coding   posixpath.normpath, quote_from_bytes, unquote_to_bytes, os.path.dirname, urlsplit, urlunsplit,
            quote(safe=...), UTF-8 validity, is_local_url/is_remote_url of CPython / urls.py
                                                    == the model's re-implementations, string by string
-  The coding theorems (unquote_quote, normpath_idempotent, normalizeUrl_idempotent, remote_render_stays_remote)
+  The coding theorems (unquote_quote, normpath_idempotent, normalizeUrl_idempotent, remote_render_refused)
   are also evaluated on the real functions for every generated string.
 """
 from __future__ import annotations
@@ -56,7 +56,7 @@ PROPS = 'XsVerif.Props.C12'
 AUDIT = 'XsVerif.Audit.C12'
 LEAN_TARGETS = ['XsVerif.Props.C12', 'drv_c12']
 LEANCHECK = ['XsVerif.Model.Access', 'XsVerif.Model.AccessTrace', 'XsVerif.Lemmas.Access', 'XsVerif.Lemmas.AccessCoding',
-             'XsVerif.Lemmas.AccessTrace', 'XsVerif.Props.C12']
+             'XsVerif.Lemmas.AccessTrace', 'XsVerif.Lemmas.AccessRemote', 'XsVerif.Props.C12']
 RULE = ('one case = (allow mode, main-source kind, reference mechanism, location spelling) processed by the real '
         'library in a temp tree with a stub remote opener; exhaustive over the catalogue in the thorough tier, '
         'every (mechanism, spelling, allow) with a rotating source kind in the quick tier, plus seeded random '
@@ -77,8 +77,8 @@ TRUSTED = ['CPython urllib (urlopen/FileHandler/url2pathname), pathlib and the O
 ASSUMPTIONS = ['the root sandbox base names a directory, not a document (hypothesis hdir of trace_sandbox_confined), in a '
                'symlink-free tree',
                'location strings and the working directory contain no lone surrogates; the model works on UTF-8 bytes',
-               'accessControl models the check as it is in the code now (C12-F4 open: remote_render_counterexample); '
-               'resolveWith refuses every rendered non-local URL in local/sandbox mode, i.e. the repaired check']
+               'remote URLs are served by a stub opener; that the rendered URL is what urlopen receives is observed '
+               '(urllib.Request audit event), not proved']
 
 XS = 'http://www.w3.org/2001/XMLSchema'
 XSI = 'http://www.w3.org/2001/XMLSchema-instance'
@@ -565,23 +565,6 @@ SANDBOX_WHATS = ("allow='sandbox' but a file outside the base directory was open
                  'a component of a denied location is part of the built schema')
 
 
-REMOTE_WHATS = ("allow='local' but a remote URL was requested", "allow='sandbox' but a remote URL was requested",
-                'a component of a denied location is part of the built schema')
-
-
-def match_f4(case: dict, detail: dict) -> Optional[str]:
-    """C12-F4: allow in {local, sandbox}; every remote URL requested / served in the run contains a raw line feed
-    (the only strings with a remote scheme that is_remote_url() does not recognise)."""
-    if case.get('allow') not in ('local', 'sandbox') or detail.get('what') not in REMOTE_WHATS:
-        return None
-    rem = [u for u in detail.get('requests', ()) if is_remote_scheme(u)] + list(detail.get('served', ()))
-    if not rem or not all('\n' in u for u in rem):
-        return None
-    if detail.get('what') == REMOTE_WHATS[2] and not str(detail.get('element', '')).startswith('r_'):
-        return None
-    return 'C12-F4'
-
-
 def load_findings(ctx: Ctx) -> None:
     """entries of notes/findings/C12.json that the committed known_findings.json does not list yet"""
     p = os.path.join(os.path.dirname(os.path.dirname(os.path.dirname(os.path.abspath(__file__)))), 'notes', 'findings', 'C12.json')
@@ -602,9 +585,6 @@ def known_match(case: dict, detail: dict) -> Optional[str]:
     C12-F2 / C12-F3: allow='sandbox', no explicit base_url; every file opened outside the sandbox is the URL
     of an XMLResource that the library constructed with base_url=None (so that its sandbox was derived from
     its own location) from the finding's call site.  Anything else opened outside the sandbox is a violation."""
-    f4 = match_f4(case, detail)
-    if f4:
-        return f4
     if case.get('allow') != 'sandbox' or detail.get('what') not in SANDBOX_WHATS:
         return None
     outside = detail.get('outside')
@@ -742,13 +722,7 @@ def compare_batch(ctx: Ctx, batch: Batch, drv: Driver) -> None:
         if what == 'access':
             ctx.traces += 1
             ctx.count('access:' + m['decision'])
-            if (m['decision'] == 'ok' and impl == 'blocked-remote' and m.get('class') == 'neither'
-                    and case['allow'] in ('local', 'sandbox')):
-                # tree with notes/fixes/C12-refuse-non-local-in-local-modes.patch applied: the repaired check refuses
-                # a URL that is neither local nor remote (C12-F4), which the model of the unrepaired check admits
-                # (remote_render_counterexample); stricter than the model on exactly this class, never laxer
-                ctx.count('access:repaired-C12-F4')
-            elif m['decision'] != impl:
+            if m['decision'] != impl:
                 ctx.mismatch('access_control', case, impl, m)
         elif what == 'norm':
             compare_norm(ctx, case, impl, m['norm'])
@@ -763,12 +737,7 @@ def compare_batch(ctx: Ctx, batch: Batch, drv: Driver) -> None:
                 # the constructor failed before/without a decision (e.g. sandbox + remote source + no base_url)
                 ctx.count('resolve:impl-' + d)
                 continue
-            if (m['decision'] == 'blocked-remote' and d == 'ok' and case['allow'] in ('local', 'sandbox')
-                    and '\n' in (impl['url'] or '')):
-                # C12-F4: the model's resolve describes the repaired check (every non-local URL is refused);
-                # the property evaluation of the same run reports the case as the known finding
-                ctx.count('resolve:known-C12-F4')
-            elif m['decision'] != d:
+            if m['decision'] != d:
                 ctx.mismatch('XMLResource access decision', case, impl, m)
             elif m['norm']['kind'] == 'file' and impl['url'] is not None and enc(impl['url']) != m['norm']['url']:
                 ctx.mismatch('XMLResource url', case, impl, m)
@@ -1366,8 +1335,8 @@ def nested(ctx: Ctx, tree: Tree, batch: Optional[Batch]) -> None:
 
 
 def newline_cases(ctx: Ctx, tree: Tree, batch: Optional[Batch]) -> None:
-    """Locations with percent-encoded control characters, joined to a REMOTE base (witness family of C12-F4 and of
-    remote_render_counterexample): under local / sandbox / none no remote request may be made."""
+    """Locations with percent-encoded control characters, joined to a REMOTE base (regression family of C12-F4, fixed by
+    600200c, and of remote_render_newline_witness): under local / sandbox / none no remote request may be made."""
     locs = ['in%0Ac.xsd', 'in%0ac.xsd', 'in%0Dc.xsd', 'in%09c.xsd', '%0A/../inc.xsd', 'in%0A%0Ac.xsd', 'i%0Anc.xsd?x=1', 'inc.xsd',
             'imp%0A.xsd']
     for allow in MODES:
